@@ -139,7 +139,7 @@ def c06(tier, seed):
 
 # ------------------------------------------------------------------------------------------ overlay
 
-def ovl_cases(universe, nlayers, props_, seed, ncfg=None, k1_ops=None, k2=0, k3=0, removal_first=False, max_nodes=None):
+def ovl_cases(universe, nlayers, props_, seed, ncfg=None, k1_ops=None, k2=0, k3=0, removal_first=False, max_nodes=None, layer_kind='mem', k2_first=None):
     """cases for overlay.run_history_case: per layer configuration a list of histories"""
     from . import overlay
     u = UNIVERSES[universe]()
@@ -170,7 +170,13 @@ def ovl_cases(universe, nlayers, props_, seed, ncfg=None, k1_ops=None, k2=0, k3=
             o3, v3 = rng.choice(overlay.HIST_OPS), rng.choice([v1, v2] + real)
             three.append([(o1, v1), (o2, v2), (o3, v3)])
         hs += three
-        cases.append({'universe': universe, 'nlayers': nlayers, 'cfg': cfg, 'histories': hs, 'props': props_})
+        if k2_first:
+            # histories that start with the given first calls on entries of this configuration, then any call
+            for o1 in k2_first:
+                for v1 in present:
+                    o2, v2 = rng.choice(overlay.HIST_OPS + overlay.TIME_OPS), rng.choice([v1] + real)
+                    hs.append([(o1, v1), (o2, v2)])
+        cases.append({'universe': universe, 'nlayers': nlayers, 'cfg': cfg, 'histories': hs, 'props': props_, 'layer_kind': layer_kind})
     return cases
 
 
@@ -239,12 +245,14 @@ def c08(tier, seed):
     from . import overlay
     if tier == 'quick':
         plan = [('UO3', 2, dict(k1_ops=overlay.HIST_OPS + overlay.OBS_OPS + overlay.TIME_OPS, k2=6)),
-                ('UO3', 3, dict(ncfg=40, k1_ops=overlay.HIST_OPS + overlay.TIME_OPS))]
+                ('UO3', 3, dict(ncfg=40, k1_ops=overlay.HIST_OPS + overlay.TIME_OPS)),
+                ('UO3', 2, dict(ncfg=40, k1_ops=['append', 'write', 'remove_file', 'create_dir_all'], k2_first=['append'], layer_kind='physshared'))]
     else:
         plan = [('UO3', 2, dict(k1_ops=overlay.HIST_OPS + overlay.OBS_OPS + overlay.TIME_OPS, k2=80, k3=20)),
                 ('UO3', 3, dict(ncfg=400, k1_ops=overlay.HIST_OPS + overlay.OBS_OPS + overlay.TIME_OPS, k2=20)),
                 ('UO4', 2, dict(ncfg=300, k1_ops=overlay.HIST_OPS + overlay.TIME_OPS, k2=20)),
-                ('UO3', 4, dict(ncfg=150, k1_ops=overlay.HIST_OPS, k2=5))]
+                ('UO3', 4, dict(ncfg=150, k1_ops=overlay.HIST_OPS, k2=5)),
+                ('UO3', 2, dict(k1_ops=overlay.HIST_OPS + overlay.TIME_OPS, k2=10, k2_first=['append', 'write'], layer_kind='physshared'))]
     return run_overlay('C08', tier, seed, plan)
 
 
